@@ -188,4 +188,3 @@ func min(a, b int) int {
 	}
 	return b
 }
-
